@@ -92,8 +92,9 @@ ResaveDomain with ResaveOkC), `Compose.save_load_save_nested_input'` (NestedDoma
 shows the derived fact at a member.  Non-vacuity: exObj32, exTwoM, exNestedM.
 Not proved: `members_recomputed` for nested segments from structural hypotheses (a TLS section inside a PT_LOAD and a
 nested PT_TLS - the usual nesting - is dropped from the PT_LOAD's list by the loader, so the lists do differ there);
-`layoutStartsB` when a nested segment's first member is SHT_NULL-typed or section 0 (there it can fail; kept as a
-Bool check on the input).
+`layoutStartsB` when a nested segment's first member is SHT_NULL-typed or section 0 - there it DOES fail:
+`layoutNW_not_sufficient_witness` machine-checks a (model-level, outside the writer domain) object meeting layoutNW,
+ResaveOkC and every other hypothesis whose second save returns false, so layoutNW alone does not imply StepNoWrap.
 Correspondence: family load.
 Oracle: bytes of the first save == bytes of a second save of the same object; bytes of
 save(load(save(obj))) == bytes of save(obj).  Known open finding F13 (address-less NOBITS member with
@@ -178,6 +179,7 @@ THEOREMS = ["ElfioVerif.C06.save_twice_witness",
             "ElfioVerif.C06.layoutStartsB_of_static",
             "ElfioVerif.C06.save_twice_runs_static'",
             "ElfioVerif.C06.save_twice_runs_small'",
+            "ElfioVerif.C06.layoutNW_not_sufficient_witness",
             "ElfioVerif.C06.resaveOkR_of_layoutNW",
             "ElfioVerif.C06.stepNoWrap_of_layoutNW",
             "ElfioVerif.C06.save_twice_runs'",
